@@ -18,6 +18,7 @@ PROP = {  # commit subject fragment -> (property, id)
  "LazyValue::as_raw_number answers Some": ("C13", "F14"),
  "recursion limit of the serde deserializer never triggers": ("C01", "F1a"),
  "publish-once caches dereference a null witness": ("C18", "F13"),
+ "io::BufWriter emits the output out of order": ("C05", "F4"),
  "loses the decoded-string race releases": ("C18", "F24"),
 }
 KNOWN = []
